@@ -154,10 +154,11 @@ theorem savepoint_loop {e : State} (h : Inv12 e) {t0 : TmpStore} (hsp0 : e.sp = 
       Prog e [] (connCommitPlain bound e).1 ∧ TmpJ t0 e (connCommitPlain bound e).1 ∧
       (connCommitPlain bound e).1.added = [] ∧
       (∀ j, ((connCommitPlain bound e).1.objs j).status ≠ .changed)) ∧
-    ((connCommitPlain bound e).2 ≠ none → Prog e [] (connCommitPlain bound e).1) := by
+    ((connCommitPlain bound e).2 ≠ none →
+      Prog e [] (connCommitPlain bound e).1 ∧ TmpFail t0 e (connCommitPlain bound e).1) := by
   unfold connCommitPlain
   obtain ⟨g1, g2⟩ := commitLoop_prog h.newOK h.addedIsNew (tmpJ_step t0 e) (h.noRec hsp0)
-    (tmpJ_stepQ t0 e) (tmpJ_skip h hsp0) bound e.registered e (Prog.refl h.str)
+    (tmpJ_stepQ t0 e) (tmpJ_skip h hsp0) (tmp_failInv t0 e) bound e.registered e (Prog.refl h.str)
     (TmpJ.refl hsp0 (h.tmp t0 hsp0).pos) h.regOid
   refine ⟨fun hr => ?_, g2⟩
   obtain ⟨hP, hJ, _, _, g4⟩ := g1 hr
